@@ -1220,6 +1220,52 @@ def abstract(ops, family):
     return out
 
 
+MERC_IGNORED = {"reb_integrator_mercurius_inertial_to_dh", "reb_integrator_mercurius_dh_to_inertial", "reb_mercurius_encounter_predict",
+                "reb_mercurius_encounter_step", "reb_integrator_mercurius_calculate_dcrit_for_particle", "memcpy", "realloc", "malloc", "free"}
+
+
+def abstract_mercurius(ops):
+    """MERCURIUS away from close encounters (encounter prediction / encounter step are not interpreted): kick - jump - (centre of
+    mass, Kepler) - jump per step; the centre-of-mass step must carry the coefficient of the Kepler step that follows it"""
+    out = []
+    pend_com = None
+    for name, args in ops:
+        if name in MERC_IGNORED:
+            continue
+
+        def co(j):
+            c = args[j]
+            if not isinstance(c, Coef) or (c.val != 0 and c.pow != 1):
+                raise ExtractError("%s: coefficient %r is not a tracked multiple of dt" % (name, c))
+            return c.val
+        if name == "reb_simulation_warning":
+            raise ExtractError("MERCURIUS schedule raises a warning: %s" % (args[1:],))
+        if name == "reb_integrator_mercurius_com_step":
+            if pend_com is not None:
+                raise ExtractError("two centre-of-mass steps without a Kepler step")
+            pend_com = co(1)
+        elif name == "reb_integrator_mercurius_kepler_step":
+            c = co(1)
+            if pend_com is None:
+                out.append((K_DRIFT, c, Fraction(0)))
+            elif pend_com == c:
+                out.append((K_DRIFT, c, Fraction(1)))
+            else:
+                raise ExtractError("centre-of-mass step %s does not pair with the Kepler step %s" % (pend_com, c))
+            pend_com = None
+        elif name == "reb_integrator_mercurius_interaction_step":
+            out.append((K_KICK, co(1), Fraction(0)))
+        elif name == "reb_integrator_mercurius_jump_step":
+            out.append((K_JUMP, co(1), Fraction(0)))
+        elif name == "reb_simulation_update_acceleration":
+            out.append((K_FORCE, Fraction(0), Fraction(0)))
+        else:
+            raise ExtractError("unknown primitive %s in mercurius schedule" % name)
+    if pend_com is not None:
+        raise ExtractError("centre-of-mass step without a Kepler step")
+    return out
+
+
 def abstract_leapfrog(ops):
     """leapfrog updates the particle arrays directly: read drift/kick coefficients off the stores"""
     out = []
@@ -1480,6 +1526,30 @@ def _extract_all(repo, fam):
         ops = run_config([jan], enums, ["reb_integrator_janus_part1", "FORCE", "reb_integrator_janus_part2"], m, JANUS_INLINE)
         D["janus"].append({"order": order, "stages": stages, "scheme": n, "step": abstract(ops, "janus")})
 
+    # ---- MERCURIUS (away from encounters)
+    fam[0] = "mercurius"
+    merc = CFile(os.path.join(S, "integrator_mercurius.c"))
+    mbase = {"r.N": 2, "r.N_var_config": 0, "r.t": Fraction(0), "r.collision": enums["REB_COLLISION_NONE"], "r.gravity": enums["REB_GRAVITY_BASIC"],
+             "r.ri_mercurius.N_allocated_dcrit": 2, "r.ri_mercurius.N_allocated": 2, "r.ri_mercurius.recalculate_coordinates_this_timestep": 0,
+             "r.ri_mercurius.recalculate_r_crit_this_timestep": 0, "r.ri_mercurius.L": Path("L"), "r.ri_mercurius.safe_mode": 1,
+             "r.ri_mercurius.is_synchronized": 1, "r.particles": Path("r.particles")}
+    MI = {"reb_integrator_mercurius_synchronize"}
+    # the warning in part1 (synchronising inside a step) is part of the documented behaviour of the fourth state: allow it there only
+    mstep = ["reb_integrator_mercurius_part1", "FORCE", "reb_integrator_mercurius_part2"]
+    D["mercurius"] = {}
+    D["mercurius"]["safe"] = abstract_mercurius(run_config([merc], enums, mstep, mbase, MI))
+    m0 = dict(mbase); m0["r.ri_mercurius.safe_mode"] = 0
+    D["mercurius"]["unsafe_first"] = abstract_mercurius(run_config([merc], enums, mstep, m0, MI))
+    m1 = dict(m0); m1["r.ri_mercurius.is_synchronized"] = 0
+    D["mercurius"]["unsafe_next"] = abstract_mercurius(run_config([merc], enums, mstep, m1, MI))
+    D["mercurius"]["two_unsync"] = abstract_mercurius(run_config([merc], enums, mstep + mstep + ["reb_integrator_mercurius_synchronize"], m0, MI))
+    D["mercurius"]["three_unsync_resync"] = abstract_mercurius(run_config(
+        [merc], enums, mstep + mstep + ["reb_integrator_mercurius_synchronize"] + mstep + ["reb_integrator_mercurius_synchronize"], m0, MI))
+    D["mercurius"]["sync_only"] = abstract_mercurius(run_config([merc], enums, ["reb_integrator_mercurius_synchronize"], m1, MI))
+    # safe mode entered while unsynchronised: part1 synchronises first (and warns)
+    m2 = dict(mbase); m2["r.ri_mercurius.is_synchronized"] = 0
+    ops = [o for o in run_config([merc], enums, mstep, m2, MI) if o[0] != "reb_simulation_warning"]
+    D["mercurius"]["safe_from_unsync"] = abstract_mercurius(ops)
     # ---- LEAPFROG
     fam[0] = "leapfrog"
     lbase = {"r.N": 1, "r.t": Fraction(0), "r.particles": Path("r.particles")}
@@ -1670,6 +1740,21 @@ def emit_lean(D):
     s += "def iasCounts : List (String × Nat) := [" + ", ".join('("%s", %d)' % (n, T["ias15_" + n]["explicit"]) for n in ("h", "rr", "c", "d", "w")) + "]\n"
     s += "end RV.C01.Gen\n"
     out["C01Ias15.lean"] = s
+
+    # ---------------- MERCURIUS
+    s = HEADER % "src/integrator_mercurius.c (part1, part2, synchronize; away from close encounters)"
+    doc = {"safe": "safe_mode = 1, synchronized: one step (part1, force, part2 incl. synchronize)",
+           "unsafe_first": "safe_mode = 0, synchronized: one step, left unsynchronized",
+           "unsafe_next": "safe_mode = 0, unsynchronized: one step",
+           "two_unsync": "safe_mode = 0: two steps from a synchronized state, then synchronize",
+           "three_unsync_resync": "safe_mode = 0: two steps, synchronize, one more step, synchronize",
+           "sync_only": "reb_integrator_mercurius_synchronize from an unsynchronized state",
+           "safe_from_unsync": "safe_mode = 1 entered in an unsynchronized state: part1 synchronizes first"}
+    for k in ("safe", "unsafe_first", "unsafe_next", "two_unsync", "three_unsync_resync", "sync_only", "safe_from_unsync"):
+        s += "/-- %s -/\ndef merc_%s : List Op :=\n  %s\n" % (doc[k], k, lops(D["mercurius"][k]))
+    s += "def mercCounts : List (String × Nat) := [(\"schedules\", %d)]\n" % len(D["mercurius"])
+    s += "end RV.C01.Gen\n"
+    out["C01Mercurius.lean"] = s
 
     # ---------------- LEAPFROG
     s = HEADER % "src/integrator_leapfrog.c"
